@@ -475,8 +475,8 @@ def _(it, a, info):
     w.spawn_count += 1
     if w.capture_spawn is not None and w.capture_spawn == idx:
         raise Captured(a[0])
-    arg = w.spawn_arg(it, a[0]) if hasattr(w, 'spawn_arg') else None
-    w.emit('spawn', 'slot%d' % idx, [arg] if arg is not None else [])
+    kind, arg = w.spawn_arg(it, a[0]) if getattr(w, 'spawn_arg', None) else (None, None)
+    w.emit('spawn', 'threads', [arg] if arg is not None else [], extra=kind)
     return Opaque('JoinHandle')
 
 
